@@ -206,6 +206,8 @@ func LogStr(msg string, v string) { Log(fmt.Sprintf("%s %q", msg, v)) }
 // scheduling intrinsics: natively no-ops (replays of schedules use their own gates)
 func Yield()                       {}
 func SetTimers(on bool)            {}
+// FireTimersUpTo: natively real time passes (durations are scaled down by the harness)
+func FireTimersUpTo(d time.Duration) int { time.Sleep(d + 60*time.Millisecond); return 0 }
 func FireTimers() int              { time.Sleep(1200 * time.Millisecond); return 0 } // natively: let real time pass
 func RunSpawned(match string) int {
 	if d, ok := spawnWait[match]; ok {
